@@ -51,6 +51,7 @@ CORRUPTIONS = [
     "space",
     "invalid-utf8",
     "len-boundary",
+    "len-boundary-multibyte",
     "huge-crlf",
     "huge-nocrlf",
     "empty-line",
@@ -119,6 +120,19 @@ def corrupt(rng, kind=None):
             line = line[: total - 7] + ";size=0"
         term = rng.choice([CRLF, CRLF, b"", b"\n", b"\r"])
         return line.encode() + term, f"{kind}:{total}:{sch}:{term!r}"
+    if kind == "len-boundary-multibyte":
+        # the 1024 limit is in BYTES: lines whose byte length is over the limit while their character count
+        # is under it (and the reverse cannot happen); terminated, so they arrive complete in one read
+        sch = rng.choice(["gemini", "titan", "titan"])
+        ch = rng.choice(["\u00e9", "\u4e2d", "\U0001F600"])
+        total_bytes = rng.choice([1023, 1024, 1025, 1026, 1030, 1200, 1500, 2044])
+        tail = ";size=3;mime=text/plain" if sch == "titan" else ""
+        head = f"{sch}://example.org/"
+        room = total_bytes - 2 - len(head) - len(tail)
+        n = max(1, room // len(ch.encode()))
+        fill = ch * n + "a" * (room - n * len(ch.encode()))
+        line = head + fill + tail
+        return line.encode() + CRLF + (b"abc" if sch == "titan" else b""), f"{kind}:{total_bytes}:{sch}:{len(line) + 2}chars"
     if kind == "huge-crlf":
         n = rng.choice([1500, 2000, 5000])
         return uri.pad_to(rng, "gemini://example.org/", n).encode() + CRLF, kind
